@@ -44,9 +44,13 @@ def analyse(m, cases, out, mout, sites, rng):
             res.append((ci, oi, 'child views changed by the failed call: %s -> %s' % (before, after), mb != ma and ma == after))
             continue
         for p in matcher.probes_for(m.g, c['type'], rng):
-            pairs.append((ci, oi, p))
-    A = [{'type': cases[ci]['type'], 'ops': cases[ci]['ops'][:oi + 1] + [p]} for ci, oi, p in pairs]
-    B = [{'type': cases[ci]['type'], 'ops': cases[ci]['ops'][:oi] + [p]} for ci, oi, p in pairs]
+            pairs.append((ci, oi, [p]))
+        # the history's own continuation (whatever it does next: removals, replacements, final checks ...): every prefix up to three operations
+        cont = c['ops'][oi + 1:oi + 4]
+        for k in range(1, len(cont) + 1):
+            pairs.append((ci, oi, cont[:k]))
+    A = [{'type': cases[ci]['type'], 'ops': cases[ci]['ops'][:oi + 1] + p} for ci, oi, p in pairs]
+    B = [{'type': cases[ci]['type'], 'ops': cases[ci]['ops'][:oi] + p} for ci, oi, p in pairs]
     ia, ma = matcher.run_both(m, A)
     ib, mb = matcher.run_both(m, B)
     seen = set()
@@ -77,9 +81,25 @@ def run(rep):
         rng = random.Random(rep.seed * 31 + 7)
         sites, nfail = collect(corp.cases, corp.impl, rng, 3000 if quick else 30000)
         found, npairs = analyse(corp.m, corp.cases, corp.impl, corp.model, sites, rng)
+        found = [(corp.cases[ci], oi, why, pr) for ci, oi, why, pr in found]
+        # scripted: one child, a final check (refused when the child's sequence needs more), the child removed again, a final check -
+        # with and without the refused check in between
+        g = corp.m.g
+        from . import rx
+        scripted = []
+        for t in g['types']:
+            for a in rx.alphabet(g['templates'][t]):
+                for ic in (0, 1):
+                    scripted.append({'type': t, 'ops': [['a', a], ['f', ic], ['r', 0], ['f', ic]]})
+        rng.shuffle(scripted)
+        scripted = scripted[:900 if quick else 100000]
+        si, sm = matcher.run_both(corp.m, scripted)
+        ssites, _ = collect(scripted, si, rng, 100000)
+        sfound, snp = analyse(corp.m, scripted, si, sm, ssites, rng)
+        found += [(scripted[ci], oi, why, pr) for ci, oi, why, pr in sfound]
+        npairs += snp
         seen = set()
-        for ci, oi, why, predicted in found:
-            c = corp.cases[ci]
+        for c, oi, why, predicted in found:
             key = 'C10:' + matcher.cause_key(c['type'], c['ops'][:oi + 1])
             rp = {'type': c['type'], 'ops': c['ops'][:oi + 1], 'why': why, 'model_predicts': predicted}
             if predicted:
@@ -125,6 +145,13 @@ def nested_faults(rep, m, quick):
             if 'skip' in r or r.get('raised') is None:
                 continue
             n += 1
+            if r.get('inv_before') == [] and r.get('inv_after') and ('inv', r['kind'], r['receiver']) not in seen:
+                # the damage may be elsewhere in the document (the element that owns the target), not on the receiver
+                seen.add(('inv', r['kind'], r['receiver']))
+                rep.finding_or_violation('C10:nested-elsewhere:' + r['kind'], '%s.%s(%s) raises %s and leaves the DOCUMENT changed: %s' % (
+                    r['receiver'], r['kind'], r['target'], r['raised'], r['inv_after']),
+                    {'nested': True, 'kind': r['kind'], 'receiver': r['receiver'], 'target': r['target'], 'raised': r['raised'], 'views_disagree_at': r['inv_after'],
+                     'doc': sh[r['case']]['doc'], 'extra': sh[r['case']]['extra']})
             kinds[r['kind']] = kinds.get(r['kind'], 0) + 1
             if not r['same'] and (r['kind'], r['receiver']) not in seen:
                 seen.add((r['kind'], r['receiver']))
